@@ -13,12 +13,10 @@ Variable eng : engines.
 (** classification of an evaluated path/group argument (opFunction.Do) *)
 Definition spread_elem (x : gv) : option rparam :=
   match x with
-  | VFloat false false (FFin d) => Some (RNum d)
-  | VInt KInt false z => Some (RNum (mkDec z 0))
   | VDec d => Some (RNum d)
   | VStr false s => Some (RStr s)
   | VBool false b => Some (RBool b)
-  | _ => None
+  | _ => let (was, d) := convert_number_check x in if was then Some (RNum d) else None
   end.
 
 Definition spread_result (res : gv) : outcome (list rparam) :=
@@ -26,14 +24,10 @@ Definition spread_result (res : gv) : outcome (list rparam) :=
   | VDec d => Ok [RNum d]
   | VStr false s => Ok [RStr s]
   | VBool false b => Ok [RBool b]
-  | VSlice t _ xs =>
-    match t with
-    | EDec | EStr | EBool | EFloat64 | EInt | EAny =>
-      match all_some (map spread_elem xs) with
-      | Some ps => Ok ps
-      | None => fail "unhandled param path type"
-      end
-    | ETOther => fail "unhandled param path type"
+  | VSlice _ _ xs | VArray _ xs =>
+    match all_some (map spread_elem xs) with
+    | Some ps => Ok ps
+    | None => fail "unhandled param path type"
     end
   | _ => fail "unhandled param path type"
   end.
